@@ -337,8 +337,9 @@ Definition nodes_covered (nodes down : list N) (frs : list frame) : bool :=
 (* Client-side request timeout (`tokio::time::timeout(timeout, runner)` around the whole execution in
    run_request_no_side_effects): when the timer fires the runner future is dropped -- every fiber is
    cancelled where it stands, the caller gets RequestTimeout, nothing is retried.  On the wire: per
-   fiber a run of the model up to the moment it was cancelled (at most one fiber when the gate is
-   closed), the call returned no earlier than [tmo] after it started, and no frame arrives more than
+   fiber a run of the model, possibly cut short where the fiber was cancelled (gate closed: ONE fiber,
+   and it had not run to its end; gate open: fibers that ended with an ignorable error may have been
+   waiting for the next timer tick), the call returned no earlier than [tmo] after it started, and no frame arrives more than
    [margin] after it returned. *)
 Definition check_timeout (p : policy) (idem : bool) (spec : option nat) (cl0 : consistency)
            (nodes down : list N) (cs : list cert) (assign : list nat) (frs : list frame)
@@ -346,4 +347,12 @@ Definition check_timeout (p : policy) (idem : bool) (spec : option nat) (cl0 : c
   multi_ok p idem cl0 nodes down (match gate_open idem spec with Some m => m | None => 0%nat end)
            cs assign frs
   && (t0 + tmo <=? tret)
-  && forallb (fun f => f_arr f <=? tret + margin) frs.
+  && forallb (fun f => f_arr f <=? tret + margin) frs
+  && (* gate closed: the one fiber had not run to its end (it would have returned its result) *)
+     match gate_open idem spec with
+     | Some _ => true
+     | None => forallb (fun x => match snd x with
+                                 | Some r => negb (fiber_finished (snd (fst x)) r)
+                                 | None => false
+                                 end) (fiber_results p idem cl0 down cs assign frs)
+     end.
